@@ -81,6 +81,53 @@ fn check_case(case: &Value, stats: &mut Stats) -> CheckResult {
     }
 }
 
+/// Exhaustive family: all four castling rights alive (kings and rooks at home), one extra man of the mover on
+/// every square and one enemy man on every other square; every legal move of every such position is applied
+/// and compared. Any square pair that wrongly touches a right (stray bits in masks) shows up here.
+fn skeleton_driver(ctx: &RunCtx, stats: &mut Stats, rep: &mut Reporter) {
+    use serde_json::json;
+    let _ = ctx;
+    let movers: &[Pc] = &[Pc::R, Pc::B, Pc::N, Pc::Q, Pc::P];
+    let victims: &[Pc] = &[Pc::R, Pc::N, Pc::P];
+    let mut combos = Vec::new();
+    for m in movers {
+        for v in victims {
+            for side in [Col::W, Col::B] {
+                combos.push((*m, *v, side));
+            }
+        }
+    }
+    let combos = &combos;
+    par_chunks(combos.len() as u64 * 64, stats, rep, |range, st, fails| {
+        for i in range {
+            let (mp, vp, side) = combos[(i / 64) as usize];
+            let s = (i % 64) as u8;
+            let base = ref_from_fen("r3k2r/8/8/8/8/8/8/R3K2R w KQkq - 0 1").unwrap();
+            if base.b[s as usize].is_some() || (mp == Pc::P && (rank_of(s) == 0 || rank_of(s) == 7)) {
+                continue;
+            }
+            for t in 0..64u8 {
+                if t == s || base.b[t as usize].is_some() || (vp == Pc::P && (rank_of(t) == 0 || rank_of(t) == 7)) {
+                    continue;
+                }
+                let mut p = base.clone();
+                p.side = side;
+                p.b[s as usize] = Some((side, mp));
+                p.b[t as usize] = Some((side.inv(), vp));
+                if !p.is_valid() {
+                    continue;
+                }
+                let case = json!({"fen": p.fen(), "src": "rights_skeleton"});
+                if let Err(f) = guarded("C03", "rights_skeleton_exhaustive", check_case, &case, st) {
+                    if fails.len() < 4 {
+                        fails.push((case, f));
+                    }
+                }
+            }
+        }
+    });
+}
+
 pub fn property() -> Property {
     Property {
         id: "C03",
@@ -88,7 +135,8 @@ pub fn property() -> Property {
                reference-legal move: Board::make_move, Move::make_raw and make::Uci results are compared field by field (and as FEN text) \
                with the reference model's by-the-rules `apply` (counters saturate: never wrap). Non-trivial = position where some \
                applied move is a capture, special move, loses a castling right, or a counter is at its limit; distinct by \
-               (squares, side, rights, mark, counters).",
+               (squares, side, rights, mark, counters). rights_skeleton_exhaustive: all four rights alive, one extra man of the mover \
+               on every square and one enemy man on every other square (5 x 3 piece types, both colours: ~100k positions).",
         assumptions: &["reference apply() follows the property text; 'never wraps' is read as: the counter stays at 65535"],
         subchecks: vec![SubCheck {
             name: "generated_positions",
@@ -105,6 +153,15 @@ pub fn property() -> Property {
                 r#"{"fen":"7k/8/8/8/8/8/8/K7 b - - 65534 65534","src":"regression_D3"}"#,
             ],
             exhaustive: false,
+        },
+        SubCheck {
+            name: "rights_skeleton_exhaustive",
+            driver: Driver::Custom { run: skeleton_driver },
+            check: check_case,
+            configs: Configs::ReleaseOnly,
+            required: &["capture_on_rook_home_loses_right", "rook_move_loses_right", "castling"],
+            regressions: &[],
+            exhaustive: true,
         }],
     }
 }
